@@ -41,6 +41,21 @@ func gen(c *hmain.Ctx) {
 	add("split-fan", pipedrv.FamSplitFan, 15)
 	add("retry-backoff", pipedrv.FamRetryBackoff, 10)
 	add("maintenance", pipedrv.FamMaint, 6)
+	// both causes of a retry give-up (attempts used up / backoff.Stop on the first failure), without and with a
+	// (blocking) dead queue - built for C01 round 4; a batch kept after the give-up is committed twice
+	add("retry-stop", pipedrv.FamRetryStop, 8)
+	add("deadqueue", pipedrv.FamDeadQStop, 8)
+	for i, retry := range []int{3, -1} {
+		for _, dq := range []bool{false, true} {
+			st := "retry-stop"
+			if dq {
+				st = "deadqueue"
+			}
+			for k := 0; k < c.Scale; k++ {
+				jobs = append(jobs, &pipedrv.Job{Stream: st, Case: pipedrv.StopGiveUp(1+(i+k)%2, 1+(i+k)%3, retry, dq, 120*((i+k+1)%2), pipedrv.StopRetentions[(i+k)%3])})
+			}
+		}
+	}
 	for i := 0; i < 2*c.Scale; i++ {
 		jobs = append(jobs, &pipedrv.Job{Stream: "expand-procs", Case: pipedrv.ExpandProcs(2500, 1600, 2+i%3, i%2 == 1)})
 	}
